@@ -1,8 +1,12 @@
 """Per-property engines used by bin/check. The default engine runs the in-process monitors of
 the `pv` binary in a checked and in a release build."""
 
-QUICK_BUDGET = 75
-THOROUGH_BUDGET = 600
+# wall-clock budgets (s) handed to the monitor; they only ever cut a run short (cases not run are
+# counted, the minimum observation requirement is scaled accordingly) and never decide a verdict.
+# Quick workloads are sized by case counts (seconds on an idle machine); their budget is only a
+# safety net for a heavily loaded machine.
+QUICK_BUDGET = 1500
+THOROUGH_BUDGET = 900
 
 
 def default_engine(chk, prop, tier, seed, replay, t0):
